@@ -136,3 +136,68 @@ REFERENCE_CONSTANTS = {
 # immutable attributes of imported modules
 MODULE_CONSTANTS = {"inf", "pi", "nan", "e", "newaxis", "float64", "float32", "intc", "int_", "int64",
                     "bool_", "euler_gamma", "NINF", "PINF"}
+
+
+# The package's known surface: module-level functions and methods of the tree the rules were written against.
+# Any other function is treated as a helper extracted by a maintainer and is inlined before the rules run
+# (sa/inline.py).  One name per line; regenerate only together with a review of the rules that anchor on names.
+KNOWN_FUNCS = {
+    "base.clip2bounds",
+    "base.count_var_at_bounds",
+    "base.display_iter",
+    "base.display_results",
+    "base.display_start",
+    "base.get_bounds",
+    "base.is_any_inf",
+    "base.projgr",
+    "benchmarks.ackley",
+    "benchmarks.ackley_grad",
+    "benchmarks.beale",
+    "benchmarks.beale_grad",
+    "benchmarks.griewank",
+    "benchmarks.griewank_grad",
+    "benchmarks.quartic",
+    "benchmarks.quartic_grad",
+    "benchmarks.rastrigin",
+    "benchmarks.rastrigin_grad",
+    "benchmarks.rosenbrock",
+    "benchmarks.rosenbrock_grad",
+    "benchmarks.sphere",
+    "benchmarks.sphere_grad",
+    "benchmarks.styblinski_tang",
+    "benchmarks.styblinski_tang_grad",
+    "bfgsmats.LBFGSB_MATRICES.__init__",
+    "bfgsmats.LBFGSB_MATRICES.use_factor",
+    "bfgsmats.bmv",
+    "bfgsmats.form_invMfactors",
+    "bfgsmats.is_update_X_and_G",
+    "bfgsmats.make_X_and_G_respect_strong_wolfe",
+    "bfgsmats.update_X_and_G",
+    "bfgsmats.update_lbfgs_matrices",
+    "cauchy.display_start_point",
+    "cauchy.get_cauchy_point",
+    "linesearch.line_search",
+    "linesearch.max_allowed_steplength",
+    "main.GradientFunction.__call__",
+    "main.ObjectiveFunction.__call__",
+    "main.initialize_X_and_G",
+    "main.is_f0_min_change_reached",
+    "main.is_f0_target_reached",
+    "main.minimize_lbfgsb",
+    "scalar_function.ScalarFunction.__init__",
+    "scalar_function.ScalarFunction._update_fun",
+    "scalar_function.ScalarFunction._update_grad",
+    "scalar_function.ScalarFunction.fun",
+    "scalar_function.ScalarFunction.fun_and_grad",
+    "scalar_function.ScalarFunction.grad",
+    "scalar_function.ScalarFunction.update_x",
+    "scalar_function.prepare_scalar_function",
+    "subspacemin.factorize_k",
+    "subspacemin.form_k",
+    "subspacemin.form_k_from_wm",
+    "subspacemin.form_k_from_za",
+    "subspacemin.get_freev",
+    "subspacemin.subspace_minimization",
+    "utils.extract_hess_inv_diag",
+    "utils.get_gradient_projection_unit_scaling",
+}
